@@ -2,6 +2,7 @@
    Only statements here; every proof is [exact <lemma of Proofs/Percolate.v>]. *)
 From Coq Require Import List ZArith QArith Qround Bool Arith Permutation.
 From EpyV Require Import Lib.Prelude Model.Percolate Proofs.Percolate.
+From EpyV Require Import Proofs.PermCount.
 Import ListNotations.
 
 (* occupied ++ unoccupied is a rearrangement of the edge list, and the two are disjoint *)
@@ -51,6 +52,65 @@ Proof. reflexivity. Qed.
 Theorem C14_equivariant : forall (A B : Type) (s : A -> B) k (p : list A),
   firstn k (map s p) = map s (firstn k p) /\ skipn k (map s p) = map s (skipn k p).
 Proof. intros. split; [exact (prefix_equivariant s k p) | exact (suffix_equivariant s k p)]. Qed.
+
+(* UNIFORMITY, as a counting theorem.  [perms l] (Proofs/PermCount.v) lists all permutations of l by inserting the
+   head at every position; [perms (seq 0 n)] is the range of the shuffle oracle: every index permutation, once
+   each, n! of them (C14_shuffles).  Applying all of them to es lists every rearrangement of es exactly once. *)
+Theorem C14_shuffles : forall n,
+  NoDup (perms (seq 0 n)) /\ length (perms (seq 0 n)) = fact n /\
+  (forall perm, In perm (perms (seq 0 n)) <-> is_perm perm n).
+Proof. exact index_perms_spec. Qed.
+
+Theorem C14_shuffles_rearrange : forall (es : list edge),
+  map (apply_perm (0,0)%Z es) (perms (seq 0 (length es))) = perms es /\
+  (forall p, In p (perms es) <-> Permutation p es).
+Proof. intros es. split; [exact (apply_all_perms (0,0)%Z es) | intros p; exact (perms_spec es p)]. Qed.
+
+(* Over all M! shuffles of an edge list without repeated undirected edges, the occupied list of
+   Percolate.percolate has the same elements as a given k-subset S of es (k = min(floor(M*T), M), the number
+   retained) for exactly k! * (M-k)! shuffles, whichever subset S is: with a uniform shuffle every k-subset is
+   retained with probability k!(M-k)!/M! = 1/C(M,k).  [same_edges a b = true] iff a and b have the same elements. *)
+Theorem C14_uniform : forall nodes es T S,
+  NoDupU es -> NoDup S -> incl S es -> length S = Nat.min (occ_of (length es) T) (length es) ->
+  length (filter (fun perm => same_edges (occupied (percolate nodes es perm T)) S) (perms (seq 0 (length es))))
+  = (fact (length S) * fact (length es - length S))%nat.
+Proof. exact occupied_count. Qed.
+
+(* the same without the closed form: any two k-subsets are hit by equally many shuffles *)
+Theorem C14_uniform_pair : forall nodes es T S S',
+  NoDupU es -> NoDup S -> NoDup S' -> incl S es -> incl S' es ->
+  length S = Nat.min (occ_of (length es) T) (length es) ->
+  length S' = Nat.min (occ_of (length es) T) (length es) ->
+  length (filter (fun perm => same_edges (occupied (percolate nodes es perm T)) S) (perms (seq 0 (length es))))
+  = length (filter (fun perm => same_edges (occupied (percolate nodes es perm T)) S') (perms (seq 0 (length es)))).
+Proof. exact occupied_uniform. Qed.
+
+Theorem C14_same_edges_spec : forall a b, same_edges a b = true <-> (forall e, In e a <-> In e b).
+Proof. exact same_edges_spec. Qed.
+
+(* the underlying fact for any type with a boolean equality: of the n! permutations of a duplicate-free list,
+   exactly k!(n-k)! have a given k-subset as the set of their first k elements *)
+Theorem C14_prefix_count : forall (A : Type) (eqb : A -> A -> bool), (forall x y, eqb x y = true <-> x = y) ->
+  forall es S : list A, NoDup es -> NoDup S -> incl S es ->
+  length (perms es) = fact (length es) /\
+  length (filter (fun p => same_elts eqb (firstn (length S) p) S) (perms es))
+  = (fact (length S) * fact (length es - length S))%nat.
+Proof. intros A eqb He es S H1 H2 H3. split; [exact (perms_length es) | exact (prefix_count eqb He es S H1 H2 H3)]. Qed.
+
+(* non-vacuity of C14_uniform: 4 edges, T = 1/2, S a 2-subset (given in the other order):
+   4 = 2!*2! of the 24 shuffles retain it *)
+Example C14_uniform_example :
+  let es := [(0,1); (1,2); (0,2); (2,3)]%Z in let S := [(0,2); (0,1)]%Z in
+  NoDupU es /\ NoDup S /\ incl S es /\ length S = Nat.min (occ_of (length es) (1#2)) (length es) /\
+  length (perms (seq 0 (length es))) = 24%nat /\
+  length (filter (fun perm => same_edges (occupied (percolate [0;1;2;3]%Z es perm (1#2))) S)
+                 (perms (seq 0 (length es)))) = 4%nat.
+Proof.
+  cbv zeta. split; [|split; [|split; [|split; [|split]]]]; try reflexivity.
+  - unfold NoDupU. cbn. repeat constructor; cbn; intuition discriminate.
+  - repeat constructor; cbn; intuition discriminate.
+  - intros e He. cbn in *. intuition.
+Qed.
 
 (* non-vacuity: a triangle with a pendant edge, T = 1/2, a non-trivial shuffle *)
 Example C14_example :
